@@ -61,6 +61,11 @@ pub struct CCase {
   /// timer period / delay of the case in ms (time-based cases)
   #[serde(default)]
   pub period: i64,
+  /// a slow consumer: the subscriber's next callback sleeps slow_ms (virtual time) when it receives the item slow_item
+  #[serde(default)]
+  pub slow_item: i64,
+  #[serde(default)]
+  pub slow_ms: u64,
 }
 
 pub fn ev(v: serde_json::Value) {
@@ -97,16 +102,21 @@ struct Shared {
   fut: Mutex<Option<std::pin::Pin<Box<another_rxrust::operators::to_vec::ToVec<'static, i64>>>>>,
   aborting: Vec<i64>,
   posting: Vec<i64>,
+  slow: (i64, u64),
 }
 
 fn do_step(sh: &Arc<Shared>, st: &Step) {
   match st.op.as_str() {
     "sub" => {
       let u = st.u;
+      let slow = sh.slow;
       ev(json!({"ev": "subcall", "u": u}));
       let sb = sh.root.subscribe(
         move |x| {
           ev(json!({"ev": "cbstart", "u": u, "k": "n", "v": if x >= OBS_BASE { OBS_BASE } else { x }}));
+          if slow.1 > 0 && x == slow.0 {
+            arx_vstd::thread::sleep(Duration::from_millis(slow.1));
+          }
           ev(json!({"ev": "cbend", "u": u, "k": "n", "v": if x >= OBS_BASE { OBS_BASE } else { x }}));
         },
         move |e| {
@@ -180,7 +190,8 @@ fn do_step(sh: &Arc<Shared>, st: &Step) {
       *sh.fut.lock().unwrap() = Some(Box::pin(f));
       ev(json!({"ev": "subret", "u": 1}));
     }
-    "tovec_wait" => {
+    "tovec_wait" | "tovec_wait2" => {
+      let fresh = st.op == "tovec_wait2";
       use std::future::Future;
       use std::task::{Context, Poll, Wake, Waker};
       struct Flag {
@@ -195,10 +206,15 @@ fn do_step(sh: &Arc<Shared>, st: &Step) {
         }
       }
       let mut fut = sh.fut.lock().unwrap().take().expect("tovec_start first");
-      let flag = Arc::new(Flag { m: arx_vstd::sync::Mutex::new(false), c: arx_vstd::sync::Condvar::new() });
-      let waker = Waker::from(flag.clone());
-      let mut cx = Context::from_waker(&waker);
+      let mut flag = Arc::new(Flag { m: arx_vstd::sync::Mutex::new(false), c: arx_vstd::sync::Condvar::new() });
+      let mut first = true;
       loop {
+        if fresh {
+          // an executor that builds a new waker for every poll (will_wake() of the previous one is false)
+          flag = Arc::new(Flag { m: arx_vstd::sync::Mutex::new(false), c: arx_vstd::sync::Condvar::new() });
+        }
+        let waker = Waker::from(flag.clone());
+        let mut cx = Context::from_waker(&waker);
         match fut.as_mut().poll(&mut cx) {
           Poll::Ready(Ok(v)) => {
             ev(json!({"ev": "poll", "k": "ready", "v": enc_list(&v.read().unwrap())}));
@@ -210,6 +226,11 @@ fn do_step(sh: &Arc<Shared>, st: &Step) {
           }
           Poll::Pending => {
             ev(json!({"ev": "poll", "k": "pending", "v": 0}));
+            if fresh && first {
+              // poll once more straight away (a spurious re-poll), with yet another waker
+              first = false;
+              continue;
+            }
             let mut g = flag.m.lock().unwrap();
             while !*g {
               g = flag.c.wait(g).unwrap();
@@ -241,7 +262,7 @@ pub fn run_ccase(case: &CCase, strategy: Strategy, log_locks: bool, budget: u64)
       "default_queue" => Sched::Default(schedulers::DefaultScheduler::new()),
       _ => Sched::None,
     };
-    let sh = Arc::new(Shared { w: w.clone(), root, handles: Mutex::new(BTreeMap::new()), sched, fut: Mutex::new(None), aborting: case.aborting.clone(), posting: case.posting.clone() });
+    let sh = Arc::new(Shared { w: w.clone(), root, handles: Mutex::new(BTreeMap::new()), sched, fut: Mutex::new(None), aborting: case.aborting.clone(), posting: case.posting.clone(), slow: (case.slow_item, case.slow_ms) });
     for st in &case.pre {
       do_step(&sh, st);
     }
